@@ -475,6 +475,9 @@ func Debug(v Value) string {
 	case Int:
 		return "int:" + strconv.FormatInt(v.I, 10)
 	case Float:
+		if math.IsNaN(v.F) {
+			return "float:NaN" // every NaN is the same NaN (sign and payload are not observable in the language)
+		}
 		return "float:" + FormatFloat(v.F) + "/0x" + strconv.FormatUint(math.Float64bits(v.F), 16)
 	case Str:
 		return "str:" + strconv.Quote(v.S)
